@@ -133,7 +133,7 @@ MUTANTS = [
  ("c08-var-noadd", "C08", "C08.R5", "html/tree/style.go", "\t\t\tvisiting.Add(variableName)\n\t\t\tdefer delete(visiting, variableName)\n", ""),
  ("c08-var-invalid-dropped", "C08", "C08.R16", "html/tree/style.go", "\t\t\tif invalid {\n\t\t\t\tsolvedTokens, invalidVar = rawTokens, true\n\t\t\t\tbreak\n\t\t\t}\n", "\t\t\t_ = invalid\n"),
  ("c08-var-final-valid", "C08", "C08.R16", "html/tree/style.go", "\t\treturn computedValue, false\n\t}\n\treturn nil, true\n}\n", "\t\treturn computedValue, false\n\t}\n\treturn []Token{}, false\n}\n"),
- ("c08-var-fallback-args", "C08", "C08.R17", "html/tree/style.go", "\t\t\tdefault_ = pa.RemoveWhitespace(fn.Arguments[i+1:])\n", "\t\t\tdefault_ = args[1:]\n\t\t\t_ = i\n"),
+ ("c08-var-fallback-args", "C08", "C08.R17", "html/tree/style.go", "\t\t\tdefault_, hasDefault = pa.RemoveWhitespace(fn.Arguments[i+1:]), true\n", "\t\t\tdefault_, hasDefault = args[1:], true\n\t\t\t_ = i\n"),
  ("c20-identfuse-swap", "C20", "C20.R8", "css/parser/serialize.go", 'case "--":\n\t\treturn next == ">"', 'case "--":\n\t\treturn next == "+"'),
  ("c20-identfuse-upper", "C20", "C20.R8", "css/parser/serialize.go", 'case "u", "U":', 'case "u":'),
  ("c20-url-ctrl", "C20", "C20.R4", "css/parser/serialize.go", "if strings.ContainsRune(nonPrintable, c) {", "if c == 0x7f {"),
@@ -147,6 +147,19 @@ MUTANTS = [
  # behaviour-preserving: must stay silent
  ("silent-c10-delta-order", "C10", "", "html/layout/percentages.go", "\t\tbox.MaxWidth = pr.Max(0, box.MaxWidth.V()-horizontalDelta)\n\t\tif box.MinWidth != pr.AutoF {\n\t\t\tbox.MinWidth = pr.Max(0, box.MinWidth.V()-horizontalDelta)\n\t\t}\n", "\t\tif box.MinWidth != pr.AutoF {\n\t\t\tbox.MinWidth = pr.Max(0, box.MinWidth.V()-horizontalDelta)\n\t\t}\n\t\tbox.MaxWidth = pr.Max(0, box.MaxWidth.V()-horizontalDelta)\n"),
  ("silent-c20-backslash-byte", "C20", "", "css/parser/serialize.go", '\t\t\tok = ok && strings.HasPrefix(whitespace.Value, "\\n")\n', '\t\t\tok = ok && len(whitespace.Value) > 0 && whitespace.Value[0] == \'\\n\'\n'),
+ # --- rules written for the repairs after batch 11
+ ("c08-csswide-helper", "C08", "", "css/validation/expanders.go", "\t\tfor _, token := range tokens {\n\t\t\tif keyword := getKeyword(token); keyword == \"inherit\" || keyword == \"initial\" {\n\t\t\t\treturn nil, fmt.Errorf(\"%s among several values\", keyword)\n\t\t\t}\n\t\t}\n", "\t\tisCSSWide := func(t Token) bool { k := getKeyword(t); return k == \"inherit\" || k == \"initial\" }\n\t\tfor _, token := range tokens {\n\t\t\tif isCSSWide(token) {\n\t\t\t\treturn nil, fmt.Errorf(\"css-wide keyword among several values\")\n\t\t\t}\n\t\t}\n"),
+ ("c08-csswide-initial", "C08", "C08.R22", "css/validation/expanders.go", "if keyword := getKeyword(token); keyword == \"inherit\" || keyword == \"initial\" {", "if keyword := getKeyword(token); keyword == \"inherit\" {"),
+ ("c08-csswide-len2", "C08", "C08.R22", "css/validation/expanders.go", "\tif len(tokens) > 1 {\n\t\tfor _, token := range tokens {\n\t\t\tif keyword := getKeyword(token)", "\tif len(tokens) > 2 {\n\t\tfor _, token := range tokens {\n\t\t\tif keyword := getKeyword(token)"),
+ ("c18-radii-eq", "C18", "C18.R18", "svg/elements.go", "if rx <= 0 || ry <= 0 { // a negative radius is invalid", "if rx == 0 || ry <= 0 {"),
+ ("c18-radii-demorgan", "C18", "", "svg/elements.go", "if rx <= 0 || ry <= 0 { // no border radius (a negative radius is invalid)", "if !(rx > 0 && ry > 0) {"),
+ ("c18-viewbox-width-only", "C18", "C18.R19", "svg/tree.go", "(v.Width < 0 || v.Height < 0)", "(v.Width < 0)"),
+ ("c18-nested-height", "C18", "C18.R20", "svg/elements.go", "\t\tif h.U == 0 {\n\t\t\th = Value{100, Perc}\n\t\t}\n\t\twidth, height = dims.point(w, h)", "\t\twidth, height = dims.point(w, h)"),
+ ("c19-desc-append", "C19", "C19.R17", "css/validation/descriptors.go", "\tout.Symbols = l\n", "\tout.Symbols = append(out.Symbols, l...)\n"),
+ ("c19-desc-early-write", "C19", "C19.R17", "css/validation/descriptors.go", "\tv, err := pad_(tokens, baseUrl)\n\tif err != nil {\n\t\treturn err\n\t}\n\tout.Pad = v\n\treturn nil", "\tv, err := pad_(tokens, baseUrl)\n\tout.Pad = v\n\treturn err"),
+ ("c08-var-comma-any", "C08", "C08.R21", "css/parser/tokenizer.go", "if lastIsComma && name != \"var\" {", "if lastIsComma {"),
+ ("c08-var-empty-len", "C08", "C08.R16", "html/tree/style.go", "\tif hasDefault {\n\t\tsources", "\tif hasDefault && len(default_) != 0 {\n\t\tsources"),
+ ("c08-fontface-src-append", "C08", "C08.R23", "css/validation/descriptors.go", "\tout.Src = l // a repeated descriptor replaces the previous one\n", "\tout.Src = append(out.Src, l...)\n"),
 ]
 
 def main():
